@@ -25,7 +25,9 @@ def setup(prog):
     eng = locks.LockEngine(prog, fs, sync_hof=('std::find', 'std::for_each'), deferred={})
     def m(n):
         return prog.fn1(n)
-    producer = [m(PIPE + '::append'), m(PIPE + '::appendLock'), m(PIPE + '::appendUnlock'),
+    producer = [m(PIPE + '::append'), m(PIPE + '::appendLock'),
+                # appendUnlock releases the producer mutex appendLock took: by the same contract it is entered holding it
+                (m(PIPE + '::appendUnlock'), [M_CURR]), (m(IMPL + '::appendUnlock'), [M_CURR]),
                 # appendLockless is by contract called between appendLock/appendUnlock (checked by C10.R2c
                 # over every caller in the program), so it is entered with the producer mutex
                 (m(PIPE + '::appendLockless'), [M_CURR])]
@@ -445,6 +447,95 @@ def r8(ctx, prog, eng, backend):
     ctx.ob('C10.R8', '%s|relative-counters' % ini.name, True, 'relative updates in initialize() examined')
 
 
+def r10(ctx, prog, eng):
+    ctx.rule('C10.R10', 'A4 a full buffer is announced before the producer blocks: may-dataflow of "a buffer was queued on full_buffers_ and the backend has not been notified since" over '
+             'the producer\'s append path; the fact must be false at every wait on free_buffers_cv_ (the backend, idle on full_buffers_cv_, is the only one who can free a buffer: a '
+             'producer that has filled the whole pool within one append and waits without having notified stalls until the flush interval expires), and if it can be true at the exit '
+             'every producer entry (append, appendUnlock) passes a notifying call before it releases the mutex', floor=2)
+    al = prog.fn1(IMPL + '::appendLockless')
+
+    def is_push(st):
+        return st['k'] in q.CALL_KINDS and st.get('fn') in ('push_back', 'emplace_back', 'push_front', 'insert') and q.obj_field_is(al, st, 'Impl::full_buffers_')
+
+    def notifies(g, depth=0):
+        """does g contain (transitively, inside the pipe) a notify on full_buffers_cv_ ?"""
+        for st in g.calls():
+            if st.get('fn') in ('notify_all', 'notify_one') and q.obj_field_is(g, st, 'Impl::full_buffers_cv_'):
+                return True
+            h = eng.resolve_callee(st)
+            if h is not None and depth < 3 and h is not g and notifies(h, depth + 1):
+                return True
+        return False
+
+    def must_notify_call(g, st):
+        """a call that notifies on every one of its paths (a direct notify, or a callee in which no path to the exit avoids a direct notify)"""
+        if st.get('fn') in ('notify_all', 'notify_one') and q.obj_field_is(g, st, 'Impl::full_buffers_cv_'):
+            return True
+        h = eng.resolve_callee(st)
+        if h is None:
+            return False
+        direct = [x for x in h.calls() if x.get('fn') in ('notify_all', 'notify_one') and q.obj_field_is(h, x, 'Impl::full_buffers_cv_')]
+        if not direct:
+            return False
+        if not h.cfg.exists_path(h.cfg.entry_point(), 'exit', avoid=[q.pt(h, x) for x in direct]):
+            return True
+        # a flag-carried announcement: the callee notifies exactly when a member flag is set, and the append path sets that flag with every buffer it queues
+        flags = set()
+        for x in direct:
+            gs = h.cfg.controlling_branches(q.pt(h, x))
+            if len(gs) != 1:
+                return False
+            cond, k, b = gs[0]
+            cs = h.s(h.strip_casts(cond))
+            if cs is None or cs['k'] != 'MemberExpr' or k != 0:
+                return False
+            flags.add(cs.get('q'))
+        if len(flags) != 1:
+            return False
+        fq = list(flags)[0].split('::')[-1]
+        sets = [a for a, rhs in q.assigns(al, 'Impl::' + fq) if al.s(al.strip_casts(rhs)).get('v') is True or al.s(al.strip_casts(rhs)).get('cv') == 1]
+        clears = [a for a, rhs in q.assigns(al, 'Impl::' + fq) if a not in sets]
+        waits_ = [q.pt(al, w_) for w_ in al.calls() if w_.get('fn') in locks.CV_WAITS]
+        return bool(sets) and not clears and all(not al.cfg.exists_path(q.pt(al, p_), 'exit', avoid=q.pts(al, sets)) and
+                                                 not any(al.cfg.exists_path(q.pt(al, p_), w_, avoid=q.pts(al, sets)) for w_ in waits_)
+                                                 for p_ in al.calls() if is_push(p_))
+
+    def transfer(pt, e, state):
+        if e[0] != 'S' or state is None:
+            return state
+        st = al.stmts[e[1]]
+        if st['k'] in q.CALL_KINDS:
+            if is_push(st):
+                return True
+            if must_notify_call(al, st):
+                return False
+        return state
+    inn, before = al.cfg.forward(False, transfer, lambda a, b: a or b)
+    pushes = [st for st in al.calls() if is_push(st)]
+    waits = [st for st in al.calls() if st.get('fn') in locks.CV_WAITS and q.obj_field_is(al, st, 'Impl::free_buffers_cv_')]
+    if not pushes or not waits:
+        raise AnalysisBroken('appendLockless: hand-over to full_buffers_ / wait on free_buffers_cv_ not found (%d/%d)' % (len(pushes), len(waits)))
+    for w in waits:
+        u = before.get(q.pt(al, w))
+        ctx.ob('C10.R10', '%s|announced-before-wait@%s' % (al.name, al.loc(w['i']).split(':')[-1]), not u, 'every buffer queued before this wait has been announced to the backend' if not u else
+               'a path reaches this wait on free_buffers_cv_ with a buffer queued on full_buffers_ (%s) and no notify on full_buffers_cv_ in between: the producer blocks for a free buffer while '
+               'the backend, never told about the full ones, sleeps out its flush interval' % al.loc(pushes[0]['i']), where=al.loc(w['i']))
+    at_exit = any(before.get((b.id, len(b.el))) for b in al.cfg.blocks.values() if al.cfg.exit in [s_ for s_ in b.succ if s_ is not None])
+    if not at_exit:
+        ctx.ob('C10.R10', '%s|announced-at-exit' % al.name, True, 'nothing queued is left unannounced when appendLockless() returns')
+    else:
+        for name in (IMPL + '::append', IMPL + '::appendUnlock'):
+            g = prog.fn1(name)
+            ann = [st for st in g.calls() if (eng.resolve_callee(st) is not None and notifies(eng.resolve_callee(st))) or
+                   (st.get('fn') in ('notify_all', 'notify_one') and q.obj_field_is(g, st, 'Impl::full_buffers_cv_'))]
+            calls_al = [st for st in g.calls() if st.get('usr') == al.usr]
+            ann = [a for a in ann if a.get('usr') != al.usr]
+            start = q.pt(g, calls_al[0]) if calls_al else g.cfg.entry_point()
+            ok = bool(ann) and not g.cfg.exists_path(start, 'exit', avoid=[q.pt(g, a) for a in ann])
+            ctx.ob('C10.R10', '%s|announces-for-appendLockless' % g.name, ok, 'passes a notifying call before it returns' if ok else
+                   'appendLockless() can return with a queued buffer unannounced, and a path through %s() ends without a notify on full_buffers_cv_' % g.short, where=g.loc(g.body))
+
+
 def run(ctx):
     prog = extract('ALL' if ctx.tier == 'thorough' else SCOPE)
     eng, ctxs, backend = setup(prog)
@@ -456,4 +547,5 @@ def run(ctx):
     ctx.guard(r6, ctx, prog, eng, ctxs)
     ctx.guard(r7, ctx, prog, eng)
     ctx.guard(r8, ctx, prog, eng, backend)
+    ctx.guard(r10, ctx, prog, eng)
     return prog
